@@ -28,7 +28,14 @@ import FunModel.ErrPolicy
     What the Run function of a service / a job does is a parameter (`Outcome`): it returns nil,
     returns an error, panics, or blocks until its context ends (then returns nil or an error); on top
     of that it returns only after the environment has `release`d it (a gate: slow services, services
-    that ignore their context).  Environment actions (`Act.isEnv`) may happen at any time. -/
+    that ignore their context).  Environment actions (`Act.isEnv`) may happen at any time.
+
+    Granularity: a step that reads the context and then takes an item from a queue (`Pool.read`,
+    `Cln.drain`: `ReadOne` checks `ctx.Err()`, then `Remove`-else-`Wait`) is one action whose guard is
+    evaluated at the moment of the context check; the real interleaving "check, cancellation, item
+    taken" differs from "item taken, cancellation" only in unobservable positions of the item (pipe /
+    cache / reader), which the later steps treat alike.  Restrictions on the environment: each service /
+    job is handed over once; group members are fresh; cleanup functions do not block. -/
 
 namespace FunModel.Orch
 open FunModel
